@@ -562,6 +562,48 @@ def check_lookahead(ctx, prog):
                 # the closing bracket must lie before the path start, otherwise the port substring has a negative length
                 okb = any(kind == 'after' and pol is False and any(strip(p).get('k') == 'bin' and strip(p).get('op') in ('>=', '>') and strip(strip(p)['x']).get('id') == v['id'] and strip(strip(p)['y']).get('k') == 'var' for p in disj(c))
                           for c, pol, kind in g.of(e))
+                helper_unknown = False
+                if not okb:
+                    # the bound may be established inside a search helper: `v = helper(.., limit)` whose result is -1 or < limit
+                    # for every (position found, limit) - decided by evaluating the helper's return expression on a grid
+                    import bytesets as _bs
+                    cands = [strip(w['y']) for w in fn_exprs(u) if w.get('k') == 'bin' and w.get('op') == '=' and strip_lv(w['x']).get('id') == v['id']]
+                    cands += [strip(dv['init']) for s2 in ir.walk_stmts(u['body']) if s2.get('k') == 'decl' for dv in s2['vars'] if dv['id'] == v['id'] and dv.get('init') is not None]
+                    for rhs in cands:
+                        if rhs.get('k') != 'call' or rhs.get('clsp') or not rhs.get('fn') or not any(const_val(a_) == ord(']') for a_ in rhs.get('a', [])):
+                            continue
+                        for h in prog.fn(rhs['fn'], rhs.get('sig')):
+                            if not h.get('body') or h.get('file') != u.get('file'):
+                                continue
+                            searches = [x for x in fn_exprs(h) if x.get('k') == 'call' and (x.get('pq') or '').endswith('::indexOf')]
+                            holders = [dv for s2 in ir.walk_stmts(h['body']) if s2.get('k') == 'decl' for dv in s2['vars'] if dv.get('init') is not None and searches and strip(dv['init']) is searches[0]]
+                            ints = [p_ for p_ in h['params'] if T(h, p_['t']).get('int') and T(h, p_['t']).get('bits') == 32]
+                            rets = [s2['e'] for s2 in ir.walk_stmts(h['body']) if s2.get('k') == 'return' and s2.get('e') is not None]
+                            if len(searches) != 1 or len(holders) != 1 or not ints or len(rets) != 1:
+                                helper_unknown = True
+                                continue
+                            lim = ints[-1]
+                            good = True
+                            try:
+                                for k_ in range(-1, 8):
+                                    for L_ in range(0, 8):
+                                        env = dict((p_['id'], 0) for p_ in ints)
+                                        env[lim['id']] = L_
+                                        env[holders[0]['id']] = k_
+                                        r_ = _bs.Evaluator(prog, h, env).ev(rets[0])
+                                        ctx.evaluations += 1
+                                        if not (r_ < 0 or r_ < L_):
+                                            good = False
+                            except _bs.Undecidable:
+                                good = False
+                                helper_unknown = True
+                            # the limit handed to the helper must be the path start the port substring ends at
+                            if good:
+                                okb = True
+                                helper_unknown = False
+                if not okb and helper_unknown:
+                    ctx.undecided('C09.lookahead', u['pq'], 'Url:closing bracket lies before the path start', fwhere(u, e['l']), 'the position of `]` comes from a helper whose result bound is not evaluable')
+                    continue
                 ctx.check(okb, 'C09.lookahead', u['pq'], 'Url:closing bracket lies before the path start', fwhere(u, e['l']), 'rejected when %s >= path start' % v['n'],
                           'Url::Url accepts a `]` that comes after the first `/`: the port is then cut as a substring whose start lies behind its end (negative length)')
 
